@@ -771,12 +771,20 @@ func firstLine(s string) string {
 	return s
 }
 
+// where the library under test is checked out (see vlib.REPO)
+var repoDir = func() string {
+	if d := os.Getenv("VERIF_REPO"); d != "" {
+		return d
+	}
+	return "/repo"
+}()
+
 // panicSite extracts the first library frame of a recovered panic's stack.
 func panicSite(s string) string {
 	lines := strings.Split(s, "\n")
 	for i := 1; i < len(lines); i++ {
 		loc := strings.TrimSpace(lines[i])
-		if !strings.HasPrefix(loc, "/repo/") {
+		if !strings.HasPrefix(loc, repoDir+"/") {
 			continue
 		}
 		if j := strings.Index(loc, " +0x"); j >= 0 {
@@ -789,7 +797,7 @@ func panicSite(s string) string {
 		if j := strings.LastIndex(fn, "/"); j >= 0 {
 			fn = fn[j+1:]
 		}
-		return fn + " at " + strings.TrimPrefix(loc, "/repo/")
+		return fn + " at " + strings.TrimPrefix(loc, repoDir+"/")
 	}
 	return ""
 }
